@@ -744,6 +744,51 @@ pub fn compiled_batch(seed: u64, n_hist: usize, n_fam: usize) -> Batch {
                 .collect(),
         },
     }));
+    // the same with evolution steps on the enum itself: the constructor index lives in chunk 0
+    specials.push(Arc::new(Decl {
+        name: "WideE".into(),
+        body: DeclBody::Enum {
+            sorted: false,
+            steps: vec![Step::Removed { name: "legacy".into() }],
+            variants: (0..300)
+                .map(|k| match k {
+                    3 | 127 | 128 | 129 | 255 | 256 | 299 => Variant { name: format!("D{k}"), shape: Shape::Tuple, transient: false, record: Record { fields: vec![f("field0", Ty::U8)], steps: vec![] } },
+                    _ => Variant { name: format!("D{k}"), shape: Shape::Unit, transient: false, record: Record { fields: vec![], steps: vec![] } },
+                })
+                .collect(),
+        },
+    }));
+    // positional transient fields in front of and between stored fields of the SAME type (a reader that fills them in
+    // at another position still type-checks)
+    {
+        let tr = |n: &str, t: Ty, d: i128| Field { name: n.into(), ty: t, transient: Some(Val::Int(d)), opt_spelling: 0 };
+        specials.push(Arc::new(Decl {
+            name: "TrPos".into(),
+            body: DeclBody::Enum {
+                sorted: false,
+                steps: vec![],
+                variants: vec![
+                    Variant { name: "Queued".into(), shape: Shape::Tuple, transient: false, record: Record { fields: vec![tr("field0", Ty::U32, 0), f("field1", Ty::U32)], steps: vec![] } },
+                    Variant { name: "Failed".into(), shape: Shape::Tuple, transient: false, record: Record { fields: vec![f("field0", Ty::Str), tr("field1", Ty::U32, 3), f("field2", Ty::U32)], steps: vec![] } },
+                    Variant {
+                        name: "Mid".into(),
+                        shape: Shape::Tuple,
+                        transient: false,
+                        record: Record { fields: vec![f("field0", Ty::U8), tr("field1", Ty::U8, 9), f("field2", Ty::U8), tr("field3", Ty::U8, 1), f("field4", Ty::U8)], steps: vec![] },
+                    },
+                    Variant { name: "Named".into(), shape: Shape::Struct, transient: false, record: Record { fields: vec![tr("t", Ty::U16, 4), f("a", Ty::U16), tr("u", Ty::U16, 5), f("b", Ty::U16)], steps: vec![] } },
+                ],
+            },
+        }));
+    }
+    // raw identifiers as field names (the name a step refers to is the identifier as written, `r#type`)
+    specials.push(struct_decl(
+        "RawId",
+        &Record {
+            fields: vec![f("plain", Ty::U16), f("r#type", Ty::U8), Field { name: "r#match".into(), ty: Ty::Option(a(Ty::Str)), transient: None, opt_spelling: 0 }],
+            steps: vec![Step::Added { name: "r#type".into(), default: Val::Int(1) }, Step::MadeOptional { name: "r#match".into() }],
+        },
+    ));
     // a record produced by a macro_rules! template (render.rs): optional fields in all three spellings, one made
     // optional by a step, one added, one removed
     specials.push(struct_decl(
